@@ -268,6 +268,10 @@ impl<const D: usize> GlobalTopologyModel<D> for ToroidalModel<D> {
                     value: wrapped,
                 },
             )?;
+            // Narrowing to `T` (e.g. `f32`) can round up onto `period` again.
+            if coord_ref.to_f64().is_some_and(|c| c >= period) {
+                *coord_ref = T::zero();
+            }
         }
         Ok(())
     }
